@@ -104,10 +104,10 @@ def main(run):
             for dtype in ("float64", "float32", "int64", "bool"):
                 if wrapper_kind == "torch" and dtype == "bool" and shape_kind in ("()",):
                     pass
-                for use_names in (False, True):
+                for use_names in (False, True, "one", "two", "all"):
                     seen = []
                     pf, g = make_pf(shape_kind, c, dtype, seen)
-                    names = ["c", "a", "d"] if use_names else None
+                    names = {False: None, True: ["c", "a", "d"], "one": ["b"], "two": ["d", "a"], "all": ["d", "c", "b", "a"]}[use_names]
                     if wrapper_kind == "sklearn":
                         w = SklearnWrapper(pf, feature_names=names)
                     else:
